@@ -603,6 +603,18 @@ func (e *Env) evalCall(c *CCall) TVal {
 		return mathInt(ctx.BitLen(argT(0)))
 	case "wrap64", "wrapu64", "wrap32", "wrapu32", "wrapu16", "wrapu8":
 		return mathInt(app(c.Fn, argT(0)))
+	case "ghost":
+		// ghost(name): a cell of abstract state, changed only through contracts' modifies clauses
+		id, ok := c.Args[0].(*CIdent)
+		if !ok {
+			e.errorf("ghost(name) expects an identifier")
+			return mathInt("0")
+		}
+		idx := "0"
+		if len(c.Args) > 1 {
+			idx = e.scalar(e.Eval(c.Args[1]), "ghost index")
+		}
+		return mathInt(Sel(e.heap("ghost:"+id.Name, false), idx))
 	case "isnil":
 		return mathBool(e.nilTest(e.Eval(c.Args[0])))
 	case "iserr":
